@@ -43,6 +43,9 @@ def make_cases(rng, tier):
     mt = [(p, q) for p in ('uint32', 'float32', 'float64') for q in ('u8', 'i16', 'f32q', 'f64q')]
     add('mia', dh.base_cfg('mia', S=2, W=1, classes=(0, 1, 2), lo=0, width=4, nb=4), tmax=16, combos_q=mq, combos_t=mt)
     add('mia-2words', dh.base_cfg('mia', S=1, W=2, classes=(0, 1), lo=2, width=3, nb=3), tmax=13, combos_q=mq[:1], combos_t=mt)
+    sat = dh.base_cfg('mia', S=1, W=1, classes=(0, 1, 2), lo=0, width=4, nb=4)
+    cs.append({'label': 'mia-saturated', 'c': sat, 'rows': [{'t': [16], 'd': [0]}, {'t': [3], 'd': [1]}, {'t': [16], 'd': [2]}, {'t': [16], 'd': [1]}][:n + 0] + [{'t': [0], 'd': [0]}],
+               'faults': [], 'subs': [None], 'combos': list(mq if tier == 'quick' else mt)})
     tq = [('float32', 'u8'), ('float64', 'f64q')]
     add('tplb', dh.base_cfg('tplb', S=2, W=1, classes=(0, 1, 2)), combos_q=tq, combos_t=allp)
     add('tplb-undeclared-values', dh.base_cfg('tplb', S=2, W=1, classes=(2, 1)), combos_q=tq, combos_t=allp, dvals=[0, 1, 2, 5])
